@@ -22,6 +22,8 @@ pub enum Event {
     Bytes(crux_http::Result<Response<Vec<u8>>>),
     Str(crux_http::Result<Response<String>>),
     Json(crux_http::Result<Response<Payload>>),
+    /// `expect_json::<u64>()`
+    Num(crux_http::Result<Response<u64>>),
     /// Outcome summary produced by an `async` program (capability used with `.await`).
     Async(String),
 }
